@@ -1616,6 +1616,8 @@ int32_t tls13ParseServerName(ssl_t *ssl,
             psTraceErrr("Out of mem\n");
             goto out_internal_error;
         }
+        /* in: the room at the target, out: the number of octets copied */
+        copiedLen = hostNameLen;
         psParseBufCopyN(pb,
                 hostNameLen,
                 (unsigned char*)ssl->expectedName,
